@@ -13,7 +13,7 @@ Lemma run_frame_rows k h : 0 <= h -> forall scans st, ds_inv k h st ->
   0 <= fst (run_frame k h scans st) <= h.
 Proof.
   intros Hh. induction scans as [|a r IH]; intros st (H1 & H2 & H3); cbn [run_frame].
-  - destruct (allocated st) eqn:Ea; cbn [andb].
+  - destruct (allocated st) eqn:Ea; cbn [negb].
     + destruct (is_prog k) eqn:Ep; cbn [orb negb].
       * rewrite H3 by auto. cbn. lia.
       * destruct (streaming st) eqn:Es; cbn [negb fst].
